@@ -39,8 +39,9 @@ Inductive invk := InvNull | InvCall | InvDirect | InvOther.
                     in every case (false: the code before)
    v_global_null    VariablesStack::findXObject pushes a null current rule around the evaluation of
                     a top-level variable (false: the code now - the stacks are used as they are)
-   v_global_direct  ElemTemplateElement::executeChildren does not take the shortcut (the template
-                    sees the xsl:call-template as its invoker; false: the code now - it sees null) *)
+   v_global_direct  no direct-template shortcut is set up for a top-level variable (the template sees
+                    the xsl:call-template as its invoker; false: the code now - the template of the
+                    shortcut is run by execute() and sees its own parent, null) *)
 Record variant := { v_call_keeps : bool; v_global_null : bool; v_global_direct : bool }.
 
 (* ------------------------------------------------------------------------------------------ *)
